@@ -4,7 +4,8 @@ import os
 import re
 
 from ..core import call_name, dotted, src, walk_shallow
-from ..lib import Rules, need, calls_in
+from ..lib import Rules, Soft, need, calls_in
+from . import refcheck
 from .dec_common import template_check
 
 S = 'pero_ocr.sequence_alignment'
@@ -32,8 +33,10 @@ def run(repo, chk):
     for name in re.findall(r'^def (\w+)', ref, re.M):
         R.run('RECUR', template_check, repo, chk, 'RECUR', S + ':' + name, name, WHAT.get(name, name), ref)
     R.run('RECUR', boundary, repo, chk)
-    R.run('PAIR', pair, repo, chk)
-    chk.expect('RECUR', 11)
+    refcheck.run_all(R, repo, chk, 'RECUR', 'errsum_ref.py', {'from_lists': 'errors = distance(ref, hyp); alignment(hyp, ref); insertions / deletions / substitutions from the alignment statistics',
+                                                          'aggregate': 'aggregation is plain addition of every counter', 'es_init': 'fields are set from the parameters of the same name'})
+    R.run('PAIR', pair, repo, Soft(chk), soft_for=[S + ':edit_stats_for_alignment', E + ':ErrorsSummary.from_lists', E + ':ErrorsSummary.aggregate'])
+    chk.expect('RECUR', 15)
     chk.expect('PAIR', 12)
 
 
